@@ -6,9 +6,10 @@
    include order, every submodule once) and drops the includes; [unsplit_schema SC m] is SC
    with m replaced by [unsplit SC m] and those submodules emptied.
 
-   Proved here IN FULL for direct includes (no submodule includes another one), see
-   [flat_family]; nested includes are covered by the metamorphic check of check/props/c13.py
-   only.  Typedefs and identities of submodules are not part of Model/Schema.v: they are
+   The generic part (Section Generic) reduces everything to two facts about the include graph: the
+   module-level grouping lookup agrees (LK) and module_dir merges the submodules one after the other
+   (HS).  They are proved here for direct includes ([flat_family]) and in IncludeNestedProofs.v for
+   every acyclic include graph ([nested_family]).  Typedefs and identities of submodules are not part of Model/Schema.v: they are
    Model/Types.v (C09) and Model/Identity.v (C11). *)
 From Coq Require Import List Arith NArith Bool Lia Permutation.
 Import ListNotations.
@@ -492,224 +493,6 @@ Record flat_family (SC : schema) (m : module) (subs : list module) : Prop := {
   ff_colon : Forall (fun X => no_colon (m_name X) = true) (m :: subs);
   ff_ok : Forall (fun X => part_ok m subs X = true) (m :: subs) }.
 
-Section Family.
-Variable SC : schema.
-Variable m : module.
-Variable subs : list module.
-Hypothesis FF : flat_family SC m subs.
-
-Let parts := m :: subs.
-Let m' := absorb m subs.
-Let SC' := map (replace_family m' subs) SC.
-Let P := uses_ok m subs.
-
-Lemma rf_name : forall x, m_name (replace_family m' subs x) = m_name x.
-Proof.
-  intros x. unfold replace_family. destruct (str_eqb (m_name x) (m_name m')) eqn:E.
-  - apply str_eqb_eq in E. symmetry. exact E.
-  - destruct (mem (m_name x) (map m_name subs)); reflexivity.
-Qed.
-
-Lemma len_SC' : length SC' = length SC.
-Proof. unfold SC'. apply map_length. Qed.
-
-Lemma len_SC : exists f0, length SC = S f0.
-Proof. destruct SC as [|x r]; [destruct (ff_m _ _ _ FF)|]. exists (length r). reflexivity. Qed.
-
-Lemma part_prefix : forall X, In X parts -> m_prefix X = m_prefix m.
-Proof.
-  intros X [<-|H]; [reflexivity|]. pose proof (ff_subs _ _ _ FF) as S. rewrite Forall_forall in S.
-  apply (S X H).
-Qed.
-
-Lemma part_body_ok : forall X, In X parts -> okb (P X) (m_body X) = true.
-Proof.
-  intros X H. pose proof (ff_ok _ _ _ FF) as O. rewrite Forall_forall in O. specialize (O X H).
-  unfold part_ok in O. apply andb_true_iff in O. tauto.
-Qed.
-
-Lemma sub_found : forall s, In s subs -> find_module SC (m_name s) = Some s /\ m_includes s = [].
-Proof.
-  intros s H. pose proof (ff_subs _ _ _ FF) as S. rewrite Forall_forall in S. destruct (S s H) as (A & _ & C & _).
-  split; [apply find_module_in; [apply (ff_names _ _ _ FF)|exact A]|exact C].
-Qed.
-
-Lemma body_m' : groupings_of (m_body m') = flat_map (fun s => groupings_of (m_body s)) parts.
-Proof. unfold m', absorb, parts. cbn [m_body flat_map]. rewrite groupings_of_app, groupings_flat. reflexivity. Qed.
-
-(* the include walk of the split module finds what the concatenation offers *)
-Lemma walk_spec : forall f0 u rest seen, no_colon u = true ->
-  (forall s, In s rest -> In s subs) -> NoDup (map m_name rest) ->
-  (forall s, In s rest -> ~ In (m_name s) seen) ->
-  fst (incl_walk (S f0) SC u (map m_name rest) seen) =
-  match find_part u rest with
-  | Some (gid, b, s) => Some (gid, b, {| g_mod := s; g_scopes := [m_body s] |})
-  | None => None
-  end.
-Proof.
-  intros f0 u. induction rest as [|s rest IH]; intros seen Hu Hs Nd Hseen; [reflexivity|].
-  cbn [map incl_walk find_part].
-  assert (E : existsb (str_eqb (m_name s)) seen = false).
-  { destruct (existsb (str_eqb (m_name s)) seen) eqn:E; [|reflexivity].
-    exfalso. apply (Hseen s (or_introl eq_refl)). apply mem_in. exact E. }
-  rewrite E. destruct (sub_found s (Hs s (or_introl eq_refl))) as [Fm Inc]. rewrite Fm.
-  rewrite fgm_local by exact Hu. rewrite Inc.
-  destruct (find_in u (groupings_of (m_body s))) as [[gid b]|]; [reflexivity|].
-  cbn [incl_walk]. cbn [map] in Nd. inversion Nd as [|? ? N1 N2]; subst.
-  apply IH; auto.
-  - intros x Hx. apply Hs. right. exact Hx.
-  - intros x Hx [C|C].
-    + apply N1. rewrite C. apply in_map. exact Hx.
-    + apply (Hseen x (or_intror Hx)). exact C.
-Qed.
-
-Definition Rctx (X : module) (c c' : gctx) : Prop :=
-  g_mod c = X /\ g_mod c' = m' /\
-  exists inner, g_scopes c = inner ++ [m_body X] /\ g_scopes c' = inner ++ [m_body m'] /\
-                Forall (fun sc => okb (P X) sc = true) inner.
-
-Definition same_found (r r' : option found_grouping) : Prop :=
-  match r, r' with
-  | None, None => True
-  | Some (gid, gb, gc), Some (gid', gb', gc') =>
-      gid = gid' /\ gb = gb' /\ exists Y, In Y parts /\ Rctx Y gc gc' /\ okb (P Y) gb = true
-  | _, _ => False
-  end.
-
-Lemma part_eq : forall X Y, In X parts -> In Y parts -> m_name Y = m_name X -> Y = X.
-Proof. intros X Y HX HY E. apply (NoDup_map_inj _ _ m_name parts); auto. apply (ff_nodup _ _ _ FF). Qed.
-
-(* module level: a local name resolves to the same grouping in the split and in the unsplit module *)
-Lemma fgm_same : forall X u, In X parts -> no_colon u = true ->
-  (str_eqb (m_name X) (m_name m) || negb (mem u (foreign m subs X))) = true ->
-  same_found (fst (find_grouping_mod (S (length SC)) SC X false u []))
-             (fst (find_grouping_mod (S (length SC')) SC' m' false u [])).
-Proof.
-  intros X u HX Hu H4. destruct len_SC as [f0 L]. rewrite len_SC', L.
-  rewrite !fgm_local by exact Hu. rewrite body_m', find_in_flat.
-  assert (Im' : m_includes m' = []) by reflexivity. rewrite Im'. cbn [incl_walk].
-  assert (Good : forall gid b s, In s parts -> find_in u (groupings_of (m_body s)) = Some (gid, b) ->
-            exists Y, In Y parts /\ Rctx Y {| g_mod := s; g_scopes := [m_body s] |}
-                                          {| g_mod := m'; g_scopes := [m_body m'] |} /\ okb (P Y) b = true).
-  { intros gid b s Hs F. exists s. split; [exact Hs|]. split.
-    - split; [reflexivity|]. split; [reflexivity|]. exists []. auto.
-    - eapply okb_grouping; [apply part_body_ok; exact Hs|exact F]. }
-  destruct (str_eqb (m_name X) (m_name m)) eqn:EX.
-  - (* the module itself: own groupings, then the includes in order *)
-    apply str_eqb_eq in EX. assert (X = m) as -> by (apply part_eq; auto; left; reflexivity).
-    unfold parts. cbn [find_part]. rewrite (ff_incl _ _ _ FF).
-    destruct (find_in u (groupings_of (m_body m))) as [[gid b]|] eqn:F.
-    + cbn [fst same_found]. repeat split. eapply Good; [left; reflexivity|exact F].
-    + rewrite walk_spec; auto.
-      * destruct (find_part u subs) as [[[gid b] s]|] eqn:Fp; cbn [fst same_found]; [|exact I].
-        repeat split. assert (In s subs /\ find_in u (groupings_of (m_body s)) = Some (gid, b)) as [Hs Fs].
-        { clear -Fp. induction subs as [|y r IH]; [discriminate|]. cbn [find_part] in Fp.
-          destruct (find_in u (groupings_of (m_body y))) as [[g0 b0]|] eqn:E.
-          - inversion Fp; subst. split; [left; reflexivity|exact E].
-          - destruct (IH Fp). split; [right|]; assumption. }
-        eapply Good; [right; exact Hs|exact Fs].
-      * pose proof (ff_nodup _ _ _ FF) as N. cbn [map] in N. inversion N. assumption.
-  - (* a submodule: only what it declares itself *)
-    cbn [orb] in H4. apply negb_true_iff in H4.
-    destruct HX as [<-|HX]; [rewrite str_eqb_refl in EX; discriminate|].
-    destruct (sub_found X HX) as [_ Inc]. rewrite Inc. cbn [incl_walk].
-    rewrite (find_part_only u X parts).
-    + destruct (find_in u (groupings_of (m_body X))) as [[gid b]|] eqn:F; cbn [fst same_found]; [|exact I].
-      repeat split. eapply Good; [right; exact HX|exact F].
-    + intros Y HY. destruct (str_eqb (m_name Y) (m_name X)) eqn:EY.
-      * left. apply str_eqb_eq in EY. apply part_eq; auto. right. exact HX.
-      * right. apply find_in_none. fold (top_names Y).
-        destruct (mem u (top_names Y)) eqn:M; [|reflexivity]. exfalso.
-        assert (mem u (foreign m subs X) = true); [|congruence].
-        apply mem_in. unfold foreign. apply in_flat_map. exists Y. split; [exact HY|].
-        rewrite EY. apply mem_in. exact M.
-    + right. exact HX.
-Qed.
-
-Lemma scopes_same : forall X u inner, In X parts -> no_colon u = true ->
-  (str_eqb (m_name X) (m_name m) || negb (mem u (foreign m subs X))) = true ->
-  Forall (fun sc => okb (P X) sc = true) inner ->
-  same_found (find_grouping_scopes SC X (inner ++ [m_body X]) u)
-             (find_grouping_scopes SC' m' (inner ++ [m_body m']) u).
-Proof.
-  intros X u inner HX Hu H4. induction inner as [|sc rest IH]; intros Ok.
-  - cbn [app find_grouping_scopes]. apply fgm_same; assumption.
-  - inversion Ok as [|? ? O1 O2]; subst.
-    assert (S1 : forall top, find_grouping_scopes SC X ((sc :: rest) ++ [top]) u =
-              match find_in u (groupings_of sc) with
-              | Some (gid, b) => Some (gid, b, {| g_mod := X; g_scopes := (sc :: rest) ++ [top] |})
-              | None => find_grouping_scopes SC X (rest ++ [top]) u
-              end).
-    { intros top. cbn [app find_grouping_scopes]. destruct (rest ++ [top]) eqn:E; [|reflexivity].
-      apply app_eq_nil in E. destruct E. discriminate. }
-    assert (S2 : forall top, find_grouping_scopes SC' m' ((sc :: rest) ++ [top]) u =
-              match find_in u (groupings_of sc) with
-              | Some (gid, b) => Some (gid, b, {| g_mod := m'; g_scopes := (sc :: rest) ++ [top] |})
-              | None => find_grouping_scopes SC' m' (rest ++ [top]) u
-              end).
-    { intros top. cbn [app find_grouping_scopes]. destruct (rest ++ [top]) eqn:E; [|reflexivity].
-      apply app_eq_nil in E. destruct E. discriminate. }
-    rewrite S1, S2. destruct (find_in u (groupings_of sc)) as [[gid b]|] eqn:F; [|apply IH; exact O2].
-    cbn [same_found]. repeat split. exists X. split; [exact HX|]. split.
-    + split; [reflexivity|]. split; [reflexivity|]. exists (sc :: rest). auto.
-    + eapply okb_grouping; [exact O1|exact F].
-Qed.
-
-(* C13 (c), grouping lookup: a uses statement anywhere in the family finds the same grouping
-   (same statement, equivalent defining context) before and after unsplitting *)
-Lemma FindGrouping_same : forall X c c' u, In X parts -> Rctx X c c' -> P X u = true ->
-  same_found (FindGrouping SC c u) (FindGrouping SC' c' u).
-Proof.
-  intros X c c' u HX (G1 & G2 & inner & S1 & S2 & Ok) HP. unfold FindGrouping.
-  rewrite G1, G2, S1, S2. rewrite (part_prefix X HX). assert (m_prefix m' = m_prefix m) as -> by reflexivity.
-  unfold P, uses_ok in HP. apply andb_true_iff in HP. destruct HP as [Hu H4].
-  apply scopes_same; assumption.
-Qed.
-
-Lemma Rctx_push : forall X c c' body, Rctx X c c' -> okb (P X) body = true ->
-  Rctx X {| g_mod := g_mod c; g_scopes := body :: g_scopes c |}
-         {| g_mod := g_mod c'; g_scopes := body :: g_scopes c' |}.
-Proof.
-  intros X c c' body (G1 & G2 & inner & S1 & S2 & Ok) Hb.
-  split; [exact G1|]. split; [exact G2|]. exists (body :: inner). cbn [g_scopes]. rewrite S1, S2. auto.
-Qed.
-
-(* building a statement of part X in the split schema and in the unsplit one gives the same
-   entry and the same error flag *)
-Lemma to_entry_same : forall f X c c' busy n, In X parts -> Rctx X c c' -> okn (P X) n = true ->
-  to_entry SC f c busy n = to_entry SC' f c' busy n.
-Proof.
-  induction f as [|f IH]; intros X c c' busy n HX R Ok; [reflexivity|].
-  assert (BD : forall X c c' busy body, In X parts -> Rctx X c c' -> okb (P X) body = true ->
-            body_dir SC f c busy body = body_dir SC' f c' busy body).
-  { clear X c c' busy n HX R Ok. intros X c c' busy body HX R Ok. unfold body_dir.
-    pose proof (Rctx_push X c c' body R Ok) as Rb.
-    set (cb := {| g_mod := g_mod c; g_scopes := body :: g_scopes c |}) in *.
-    set (cb' := {| g_mod := g_mod c'; g_scopes := body :: g_scopes c' |}) in *.
-    assert (Fold : forall l acc, okb (P X) l = true ->
-              fold_left (body_step SC f cb busy) l acc = fold_left (body_step SC' f cb' busy) l acc);
-      [|apply Fold; exact Ok].
-    clear Ok. induction l as [|ch l IHl]; intros acc Ok; [reflexivity|].
-    cbn [okb forallb] in Ok. apply andb_true_iff in Ok. destruct Ok as [Oc Ol]. cbn [fold_left].
-    assert (St : body_step SC f cb busy acc ch = body_step SC' f cb' busy acc ch).
-    { destruct ch; cbn [body_step]; try (rewrite (IH X cb cb' busy _ HX Rb Oc); reflexivity).
-      rewrite okn_body in Oc. pose proof (FindGrouping_same X cb cb' gname HX Rb Oc) as Fs.
-      destruct (FindGrouping SC cb gname) as [[[gid gb] gc]|], (FindGrouping SC' cb' gname) as [[[gid' gb'] gc']|];
-        cbn [same_found] in Fs; try contradiction; [|reflexivity].
-      destruct Fs as (<- & <- & Y & HY & RY & OY). destruct (existsb (Nat.eqb gid) busy); [reflexivity|].
-      rewrite (IH Y gc gc' (gid :: busy) (DGrouping gid [] gb) HY RY); [reflexivity|].
-      rewrite okn_body. exact OY. }
-    rewrite St. apply IHl. exact Ol. }
-  rewrite !to_entry_S. rewrite okn_body in Ok.
-  destruct n; try reflexivity; try (rewrite (BD X c c' busy body HX R Ok); reflexivity).
-  apply andb_true_iff in Ok. destruct Ok as [Oi Oo].
-  assert (IO : forall k nm b, match b with Some body => okb (P X) body | None => true end = true ->
-            io_entry SC f c busy k nm b = io_entry SC' f c' busy k nm b).
-  { intros k nm [body|] Hb; [|reflexivity]. cbn [io_entry]. rewrite (BD X c c' busy body HX R Hb). reflexivity. }
-  rewrite (IO KInput s_input input Oi), (IO KOutput s_output output Oo). reflexivity.
-Qed.
-
-(* ---- the unsplit schema has the same size, hence the same fuel ---- *)
 Definition sumf {A} (w : A -> nat) (l : list A) : nat := fold_right (fun x n => w x + n) 0 l.
 
 Lemma sumf_app : forall A (w : A -> nat) a b, sumf w (a ++ b) = sumf w a + sumf w b.
@@ -731,50 +514,8 @@ Proof.
   rewrite (H x (or_introl eq_refl)), IH; [reflexivity|]. intros y Hy. apply H. right. exact Hy.
 Qed.
 
-Lemma module_size_sum : forall x,
-  module_size x = sumf size_node (m_body x) + sumf (fun a => S (sumf size_node (snd a))) (m_augments x).
-Proof. reflexivity. Qed.
-
-Lemma size_absorb : module_size m' = module_size m + sumf module_size subs.
-Proof.
-  rewrite (module_size_sum m'). unfold m', absorb. cbn [m_body m_augments].
-  rewrite !sumf_app, !sumf_flat, (module_size_sum m).
-  assert (E : sumf module_size subs =
-              sumf (fun s => sumf size_node (m_body s)) subs +
-              sumf (fun s => sumf (fun a => S (sumf size_node (snd a))) (m_augments s)) subs).
-  { generalize subs. intros l. induction l as [|s r IH]; [reflexivity|]. unfold sumf in *. cbn [fold_right].
-    rewrite IH, (module_size_sum s). unfold sumf. lia. }
-  rewrite E. lia.
-Qed.
-
-Lemma rf_m : replace_family m' subs m = m'.
-Proof. unfold replace_family. assert (m_name m' = m_name m) as -> by reflexivity. rewrite str_eqb_refl. reflexivity. Qed.
-
-Lemma rf_sub : forall s, In s subs -> replace_family m' subs s = emptied s.
-Proof.
-  intros s H. unfold replace_family. assert (m_name m' = m_name m) as -> by reflexivity.
-  destruct (str_eqb (m_name s) (m_name m)) eqn:E.
-  - apply str_eqb_eq in E. assert (s = m) by (apply part_eq; [left; reflexivity|right; exact H|exact E]).
-    subst s. pose proof (ff_nodup _ _ _ FF) as N. cbn [map] in N. inversion N as [|? ? N1 _]; subst.
-    exfalso. apply N1. apply in_map. exact H.
-  - assert (mem (m_name s) (map m_name subs) = true) as ->; [|reflexivity].
-    apply mem_in. apply in_map. exact H.
-Qed.
-
-Lemma rf_other : forall x, ~ In (m_name x) (map m_name parts) -> replace_family m' subs x = x.
-Proof.
-  intros x H. unfold replace_family. assert (m_name m' = m_name m) as -> by reflexivity.
-  destruct (str_eqb (m_name x) (m_name m)) eqn:E.
-  - apply str_eqb_eq in E. exfalso. apply H. left. symmetry. exact E.
-  - destruct (mem (m_name x) (map m_name subs)) eqn:M; [|reflexivity].
-    apply mem_in in M. exfalso. apply H. right. exact M.
-Qed.
-
-Lemma parts_in_SC : forall X, In X parts -> In X SC.
-Proof.
-  intros X [<-|H]; [apply (ff_m _ _ _ FF)|]. pose proof (ff_subs _ _ _ FF) as S. rewrite Forall_forall in S.
-  apply (S X H).
-Qed.
+Lemma sumf_S : forall A (h : A -> nat) l, sumf (fun s => S (h s)) l = length l + sumf h l.
+Proof. induction l as [|x l IH]; simpl; [reflexivity|]. rewrite IH. lia. Qed.
 
 Lemma nodup_app : forall (A : Type) (a b : list A),
   NoDup a -> NoDup b -> (forall x, In x a -> In x b -> False) -> NoDup (a ++ b).
@@ -784,73 +525,6 @@ Proof.
   - intros C. apply in_app_or in C. destruct C as [C|C]; [contradiction|]. apply (D x); [left; reflexivity|exact C].
   - apply IH; auto. intros y Hy. apply D. right. exact Hy.
 Qed.
-
-Lemma SC_split : Permutation SC
-  (parts ++ filter (fun x => negb (mem (m_name x) (map m_name parts))) SC).
-Proof.
-  pose proof (ff_names _ _ _ FF) as N. pose proof (ff_nodup _ _ _ FF) as Np.
-  apply NoDup_Permutation.
-  - eapply NoDup_map_inv. exact N.
-  - apply nodup_app.
-    + eapply NoDup_map_inv. exact Np.
-    + apply NoDup_filter. eapply NoDup_map_inv. exact N.
-    + intros x Hx Hf. apply filter_In in Hf. destruct Hf as [_ Hf]. apply negb_true_iff in Hf.
-      assert (mem (m_name x) (map m_name parts) = true); [|congruence]. apply mem_in. apply in_map. exact Hx.
-  - intros x. rewrite in_app_iff, filter_In. split.
-    + intros Hx. destruct (mem (m_name x) (map m_name parts)) eqn:M; [left|right; auto].
-      apply mem_in in M. apply in_map_iff in M. destruct M as (Y & EY & HY).
-      assert (Y = x); [|subst; exact HY].
-      apply (NoDup_map_inj _ _ m_name SC); auto. apply parts_in_SC. exact HY.
-    + intros [H|[H _]]; [apply parts_in_SC|]; exact H.
-Qed.
-
-Lemma sumf_S : forall A (h : A -> nat) l, sumf (fun s => S (h s)) l = length l + sumf h l.
-Proof. induction l as [|x l IH]; simpl; [reflexivity|]. rewrite IH. lia. Qed.
-
-Lemma size_same : schema_size SC' = schema_size SC.
-Proof.
-  change (sumf (fun x => S (module_size x)) SC' = sumf (fun x => S (module_size x)) SC).
-  unfold SC'. rewrite sumf_map.
-  rewrite (sumf_perm _ _ _ _ SC_split), (sumf_perm _ (fun x => S (module_size x)) _ _ SC_split).
-  rewrite !sumf_app. f_equal.
-  - unfold parts. cbn [sumf fold_right]. rewrite rf_m, size_absorb. fold (sumf (fun x => S (module_size (replace_family m' subs x))) subs).
-    fold (sumf (fun x => S (module_size x)) subs).
-    rewrite (sumf_ext _ (fun x => S (module_size (replace_family m' subs x))) (fun _ => 1) subs).
-    + rewrite (sumf_S _ module_size subs), (sumf_S _ (fun _ => 0) subs).
-      assert (sumf (fun _ : module => 0) subs = 0) as -> by (clear; induction subs; simpl; auto). lia.
-    + intros s Hs. rewrite (rf_sub s Hs). reflexivity.
-  - apply sumf_ext. intros x Hx. apply filter_In in Hx. destruct Hx as [_ Hx]. apply negb_true_iff in Hx.
-    rewrite rf_other; [reflexivity|]. intros C. apply mem_in in C. congruence.
-Qed.
-
-Lemma fuel_same : entry_fuel SC' = entry_fuel SC.
-Proof. unfold entry_fuel. rewrite size_same. reflexivity. Qed.
-
-Lemma fuel_S : exists f, entry_fuel SC = S f.
-Proof. unfold entry_fuel. exists (schema_size SC + schema_size SC * S (schema_size SC)). reflexivity. Qed.
-
-Lemma body_step_same : forall f X cb cb' busy acc ch, In X parts -> Rctx X cb cb' -> okn (P X) ch = true ->
-  body_step SC f cb busy acc ch = body_step SC' f cb' busy acc ch.
-Proof.
-  intros f X cb cb' busy acc ch HX Rb Oc.
-  destruct ch; cbn [body_step]; try (rewrite (to_entry_same f X cb cb' busy _ HX Rb Oc); reflexivity).
-  rewrite okn_body in Oc. pose proof (FindGrouping_same X cb cb' gname HX Rb Oc) as Fs.
-  destruct (FindGrouping SC cb gname) as [[[gid gb] gc]|], (FindGrouping SC' cb' gname) as [[[gid' gb'] gc']|];
-    cbn [same_found] in Fs; try contradiction; [|reflexivity].
-  destruct Fs as (<- & <- & Y & HY & RY & OY). destruct (existsb (Nat.eqb gid) busy); [reflexivity|].
-  rewrite (to_entry_same f Y gc gc' (gid :: busy) (DGrouping gid [] gb) HY RY); [reflexivity|].
-  rewrite okn_body. exact OY.
-Qed.
-
-Lemma body_fold_same : forall f X cb cb' busy l acc, In X parts -> Rctx X cb cb' -> okb (P X) l = true ->
-  fold_left (body_step SC f cb busy) l acc = fold_left (body_step SC' f cb' busy) l acc.
-Proof.
-  intros f X cb cb' busy l. induction l as [|ch l IH]; intros acc HX R Ok; [reflexivity|].
-  cbn [okb forallb] in Ok. apply andb_true_iff in Ok. destruct Ok as [Oc Ol]. cbn [fold_left].
-  rewrite (body_step_same f X cb cb' busy acc ch HX R Oc). apply IH; assumption.
-Qed.
-
-End Family.
 
 (* ------------------------------------------------------------------ statements as actions *)
 
@@ -943,15 +617,494 @@ Definition merge_part (SC : schema) (acc : list (str * entry) * bool) (s : modul
   let '(sd, serr) := own_dir SC s in
   let '(d, e) := merge_dir acc None sd in (d, e || serr).
 
-Section Assemble.
+Record family_base (SC : schema) (m : module) (subs : list module) : Prop := {
+  fb_names : NoDup (map m_name SC);
+  fb_m : In m SC;
+  fb_nodup : NoDup (map m_name (m :: subs));
+  fb_in : Forall (fun s => In s SC /\ m_prefix s = m_prefix m) subs }.
+
+Definition devs_err (x : module) : bool := existsb (fun dv => existsb deviate_err (snd dv)) (m_deviations x).
+
+Section Generic.
+Variable SC : schema.
+Variable ic : bool.
+Variable m : module.
+Variable subs : list module.
+(* what is asked of the uses names of a part *)
+Variable P : module -> str -> bool.
+Hypothesis HB : family_base SC m subs.
+Hypothesis HOK : Forall (fun X => okb (P X) (m_body X) = true /\
+                                 forallb (fun a => okb (P X) (snd a)) (m_augments X) = true) (m :: subs).
+
+Let parts := m :: subs.
+Let m' := absorb m subs.
+Let SC' := map (replace_family m' subs) SC.
+
+Lemma rf_name : forall x, m_name (replace_family m' subs x) = m_name x.
+Proof.
+  intros x. unfold replace_family. destruct (str_eqb (m_name x) (m_name m')) eqn:E.
+  - apply str_eqb_eq in E. symmetry. exact E.
+  - destruct (mem (m_name x) (map m_name subs)); reflexivity.
+Qed.
+
+Lemma len_SC' : length SC' = length SC.
+Proof. unfold SC'. apply map_length. Qed.
+
+Lemma len_SC : exists f0, length SC = S f0.
+Proof. destruct SC as [|x r]; [destruct (fb_m _ _ _ HB)|]. exists (length r). reflexivity. Qed.
+
+Lemma part_prefix : forall X, In X parts -> m_prefix X = m_prefix m.
+Proof.
+  intros X [<-|H]; [reflexivity|]. pose proof (fb_in _ _ _ HB) as S. rewrite Forall_forall in S.
+  apply (S X H).
+Qed.
+
+Lemma part_body_ok : forall X, In X parts -> okb (P X) (m_body X) = true.
+Proof.
+  intros X H. pose proof HOK as O. rewrite Forall_forall in O. apply (O X H).
+Qed.
+
+Lemma body_m' : groupings_of (m_body m') = flat_map (fun s => groupings_of (m_body s)) parts.
+Proof. unfold m', absorb, parts. cbn [m_body flat_map]. rewrite groupings_of_app, groupings_flat. reflexivity. Qed.
+
+Definition Rctx (X : module) (c c' : gctx) : Prop :=
+  g_mod c = X /\ g_mod c' = m' /\
+  exists inner, g_scopes c = inner ++ [m_body X] /\ g_scopes c' = inner ++ [m_body m'] /\
+                Forall (fun sc => okb (P X) sc = true) inner.
+
+Definition same_found (r r' : option found_grouping) : Prop :=
+  match r, r' with
+  | None, None => True
+  | Some (gid, gb, gc), Some (gid', gb', gc') =>
+      gid = gid' /\ gb = gb' /\ exists Y, In Y parts /\ Rctx Y gc gc' /\ okb (P Y) gb = true
+  | _, _ => False
+  end.
+
+Lemma part_eq : forall X Y, In X parts -> In Y parts -> m_name Y = m_name X -> Y = X.
+Proof. intros X Y HX HY E. apply (NoDup_map_inj _ _ m_name parts); auto. apply (fb_nodup _ _ _ HB). Qed.
+
+(* the one fact about the include graph the rest needs: at module level a uses name of part X
+   resolves to the same grouping in the split and in the unsplit schema *)
+Hypothesis LK : forall X u, In X parts -> P X u = true ->
+  same_found (fst (find_grouping_mod (S (length SC)) SC X false (trim_prefix (m_prefix m ++ [cCOLON]) u) []))
+             (fst (find_grouping_mod (S (length SC')) SC' m' false (trim_prefix (m_prefix m ++ [cCOLON]) u) [])).
+
+Lemma scopes_same : forall X u inner, In X parts -> P X u = true ->
+  Forall (fun sc => okb (P X) sc = true) inner ->
+  same_found (find_grouping_scopes SC X (inner ++ [m_body X]) (trim_prefix (m_prefix m ++ [cCOLON]) u))
+             (find_grouping_scopes SC' m' (inner ++ [m_body m']) (trim_prefix (m_prefix m ++ [cCOLON]) u)).
+Proof.
+  intros X u0 inner HX HP. set (u := trim_prefix (m_prefix m ++ [cCOLON]) u0).
+  induction inner as [|sc rest IH]; intros Ok.
+  - cbn [app find_grouping_scopes]. apply LK; assumption.
+  - inversion Ok as [|? ? O1 O2]; subst.
+    assert (S1 : forall top, find_grouping_scopes SC X ((sc :: rest) ++ [top]) u =
+              match find_in u (groupings_of sc) with
+              | Some (gid, b) => Some (gid, b, {| g_mod := X; g_scopes := (sc :: rest) ++ [top] |})
+              | None => find_grouping_scopes SC X (rest ++ [top]) u
+              end).
+    { intros top. cbn [app find_grouping_scopes]. destruct (rest ++ [top]) eqn:E; [|reflexivity].
+      apply app_eq_nil in E. destruct E. discriminate. }
+    assert (S2 : forall top, find_grouping_scopes SC' m' ((sc :: rest) ++ [top]) u =
+              match find_in u (groupings_of sc) with
+              | Some (gid, b) => Some (gid, b, {| g_mod := m'; g_scopes := (sc :: rest) ++ [top] |})
+              | None => find_grouping_scopes SC' m' (rest ++ [top]) u
+              end).
+    { intros top. cbn [app find_grouping_scopes]. destruct (rest ++ [top]) eqn:E; [|reflexivity].
+      apply app_eq_nil in E. destruct E. discriminate. }
+    rewrite S1, S2. destruct (find_in u (groupings_of sc)) as [[gid b]|] eqn:F; [|apply IH; exact O2].
+    cbn [same_found]. repeat split. exists X. split; [exact HX|]. split.
+    + split; [reflexivity|]. split; [reflexivity|]. exists (sc :: rest). auto.
+    + eapply okb_grouping; [exact O1|exact F].
+Qed.
+
+Lemma FindGrouping_same : forall X c c' u, In X parts -> Rctx X c c' -> P X u = true ->
+  same_found (FindGrouping SC c u) (FindGrouping SC' c' u).
+Proof.
+  intros X c c' u HX (G1 & G2 & inner & S1 & S2 & Ok) HP. unfold FindGrouping.
+  rewrite G1, G2, S1, S2. rewrite (part_prefix X HX). assert (m_prefix m' = m_prefix m) as -> by reflexivity.
+  apply scopes_same; assumption.
+Qed.
+
+Lemma Rctx_push : forall X c c' body, Rctx X c c' -> okb (P X) body = true ->
+  Rctx X {| g_mod := g_mod c; g_scopes := body :: g_scopes c |}
+         {| g_mod := g_mod c'; g_scopes := body :: g_scopes c' |}.
+Proof.
+  intros X c c' body (G1 & G2 & inner & S1 & S2 & Ok) Hb.
+  split; [exact G1|]. split; [exact G2|]. exists (body :: inner). cbn [g_scopes]. rewrite S1, S2. auto.
+Qed.
+
+(* building a statement of part X in the split schema and in the unsplit one gives the same
+   entry and the same error flag *)
+Lemma to_entry_same : forall f X c c' busy n, In X parts -> Rctx X c c' -> okn (P X) n = true ->
+  to_entry SC f c busy n = to_entry SC' f c' busy n.
+Proof.
+  induction f as [|f IH]; intros X c c' busy n HX R Ok; [reflexivity|].
+  assert (BD : forall X c c' busy body, In X parts -> Rctx X c c' -> okb (P X) body = true ->
+            body_dir SC f c busy body = body_dir SC' f c' busy body).
+  { clear X c c' busy n HX R Ok. intros X c c' busy body HX R Ok. unfold body_dir.
+    pose proof (Rctx_push X c c' body R Ok) as Rb.
+    set (cb := {| g_mod := g_mod c; g_scopes := body :: g_scopes c |}) in *.
+    set (cb' := {| g_mod := g_mod c'; g_scopes := body :: g_scopes c' |}) in *.
+    assert (Fold : forall l acc, okb (P X) l = true ->
+              fold_left (body_step SC f cb busy) l acc = fold_left (body_step SC' f cb' busy) l acc);
+      [|apply Fold; exact Ok].
+    clear Ok. induction l as [|ch l IHl]; intros acc Ok; [reflexivity|].
+    cbn [okb forallb] in Ok. apply andb_true_iff in Ok. destruct Ok as [Oc Ol]. cbn [fold_left].
+    assert (St : body_step SC f cb busy acc ch = body_step SC' f cb' busy acc ch).
+    { destruct ch; cbn [body_step]; try (rewrite (IH X cb cb' busy _ HX Rb Oc); reflexivity).
+      rewrite okn_body in Oc. pose proof (FindGrouping_same X cb cb' gname HX Rb Oc) as Fs.
+      destruct (FindGrouping SC cb gname) as [[[gid gb] gc]|], (FindGrouping SC' cb' gname) as [[[gid' gb'] gc']|];
+        cbn [same_found] in Fs; try contradiction; [|reflexivity].
+      destruct Fs as (<- & <- & Y & HY & RY & OY). destruct (existsb (Nat.eqb gid) busy); [reflexivity|].
+      rewrite (IH Y gc gc' (gid :: busy) (DGrouping gid [] gb) HY RY); [reflexivity|].
+      rewrite okn_body. exact OY. }
+    rewrite St. apply IHl. exact Ol. }
+  rewrite !to_entry_S. rewrite okn_body in Ok.
+  destruct n; try reflexivity; try (rewrite (BD X c c' busy body HX R Ok); reflexivity).
+  apply andb_true_iff in Ok. destruct Ok as [Oi Oo].
+  assert (IO : forall k nm b, match b with Some body => okb (P X) body | None => true end = true ->
+            io_entry SC f c busy k nm b = io_entry SC' f c' busy k nm b).
+  { intros k nm [body|] Hb; [|reflexivity]. cbn [io_entry]. rewrite (BD X c c' busy body HX R Hb). reflexivity. }
+  rewrite (IO KInput s_input input Oi), (IO KOutput s_output output Oo). reflexivity.
+Qed.
+
+(* ---- the unsplit schema has the same size, hence the same fuel ---- *)
+Lemma module_size_sum : forall x,
+  module_size x = sumf size_node (m_body x) + sumf (fun a => S (sumf size_node (snd a))) (m_augments x).
+Proof. reflexivity. Qed.
+
+Lemma size_absorb : module_size m' = module_size m + sumf module_size subs.
+Proof.
+  rewrite (module_size_sum m'). unfold m', absorb. cbn [m_body m_augments].
+  rewrite !sumf_app, !sumf_flat, (module_size_sum m).
+  assert (E : sumf module_size subs =
+              sumf (fun s => sumf size_node (m_body s)) subs +
+              sumf (fun s => sumf (fun a => S (sumf size_node (snd a))) (m_augments s)) subs).
+  { generalize subs. intros l. induction l as [|s r IH]; [reflexivity|]. unfold sumf in *. cbn [fold_right].
+    rewrite IH, (module_size_sum s). unfold sumf. lia. }
+  rewrite E. lia.
+Qed.
+
+Lemma rf_m : replace_family m' subs m = m'.
+Proof. unfold replace_family. assert (m_name m' = m_name m) as -> by reflexivity. rewrite str_eqb_refl. reflexivity. Qed.
+
+Lemma rf_sub : forall s, In s subs -> replace_family m' subs s = emptied s.
+Proof.
+  intros s H. unfold replace_family. assert (m_name m' = m_name m) as -> by reflexivity.
+  destruct (str_eqb (m_name s) (m_name m)) eqn:E.
+  - apply str_eqb_eq in E. assert (s = m) by (apply part_eq; [left; reflexivity|right; exact H|exact E]).
+    subst s. pose proof (fb_nodup _ _ _ HB) as N. cbn [map] in N. inversion N as [|? ? N1 _]; subst.
+    exfalso. apply N1. apply in_map. exact H.
+  - assert (mem (m_name s) (map m_name subs) = true) as ->; [|reflexivity].
+    apply mem_in. apply in_map. exact H.
+Qed.
+
+Lemma rf_other : forall x, ~ In (m_name x) (map m_name parts) -> replace_family m' subs x = x.
+Proof.
+  intros x H. unfold replace_family. assert (m_name m' = m_name m) as -> by reflexivity.
+  destruct (str_eqb (m_name x) (m_name m)) eqn:E.
+  - apply str_eqb_eq in E. exfalso. apply H. left. symmetry. exact E.
+  - destruct (mem (m_name x) (map m_name subs)) eqn:M; [|reflexivity].
+    apply mem_in in M. exfalso. apply H. right. exact M.
+Qed.
+
+Lemma parts_in_SC : forall X, In X parts -> In X SC.
+Proof.
+  intros X [<-|H]; [apply (fb_m _ _ _ HB)|]. pose proof (fb_in _ _ _ HB) as S. rewrite Forall_forall in S.
+  apply (S X H).
+Qed.
+
+Lemma SC_split : Permutation SC
+  (parts ++ filter (fun x => negb (mem (m_name x) (map m_name parts))) SC).
+Proof.
+  pose proof (fb_names _ _ _ HB) as N. pose proof (fb_nodup _ _ _ HB) as Np.
+  apply NoDup_Permutation.
+  - eapply NoDup_map_inv. exact N.
+  - apply nodup_app.
+    + eapply NoDup_map_inv. exact Np.
+    + apply NoDup_filter. eapply NoDup_map_inv. exact N.
+    + intros x Hx Hf. apply filter_In in Hf. destruct Hf as [_ Hf]. apply negb_true_iff in Hf.
+      assert (mem (m_name x) (map m_name parts) = true); [|congruence]. apply mem_in. apply in_map. exact Hx.
+  - intros x. rewrite in_app_iff, filter_In. split.
+    + intros Hx. destruct (mem (m_name x) (map m_name parts)) eqn:M; [left|right; auto].
+      apply mem_in in M. apply in_map_iff in M. destruct M as (Y & EY & HY).
+      assert (Y = x); [|subst; exact HY].
+      apply (NoDup_map_inj _ _ m_name SC); auto. apply parts_in_SC. exact HY.
+    + intros [H|[H _]]; [apply parts_in_SC|]; exact H.
+Qed.
+
+Lemma size_same : schema_size SC' = schema_size SC.
+Proof.
+  change (sumf (fun x => S (module_size x)) SC' = sumf (fun x => S (module_size x)) SC).
+  unfold SC'. rewrite sumf_map.
+  rewrite (sumf_perm _ _ _ _ SC_split), (sumf_perm _ (fun x => S (module_size x)) _ _ SC_split).
+  rewrite !sumf_app. f_equal.
+  - unfold parts. cbn [sumf fold_right]. rewrite rf_m, size_absorb. fold (sumf (fun x => S (module_size (replace_family m' subs x))) subs).
+    fold (sumf (fun x => S (module_size x)) subs).
+    rewrite (sumf_ext _ (fun x => S (module_size (replace_family m' subs x))) (fun _ => 1) subs).
+    + rewrite (sumf_S _ module_size subs), (sumf_S _ (fun _ => 0) subs).
+      assert (sumf (fun _ : module => 0) subs = 0) as -> by (clear; induction subs; simpl; auto). lia.
+    + intros s Hs. rewrite (rf_sub s Hs). reflexivity.
+  - apply sumf_ext. intros x Hx. apply filter_In in Hx. destruct Hx as [_ Hx]. apply negb_true_iff in Hx.
+    rewrite rf_other; [reflexivity|]. intros C. apply mem_in in C. congruence.
+Qed.
+
+Lemma fuel_same : entry_fuel SC' = entry_fuel SC.
+Proof. unfold entry_fuel. rewrite size_same. reflexivity. Qed.
+
+Lemma fuel_S : exists f, entry_fuel SC = S f.
+Proof. unfold entry_fuel. exists (schema_size SC + schema_size SC * S (schema_size SC)). reflexivity. Qed.
+
+Lemma body_step_same : forall f X cb cb' busy acc ch, In X parts -> Rctx X cb cb' -> okn (P X) ch = true ->
+  body_step SC f cb busy acc ch = body_step SC' f cb' busy acc ch.
+Proof.
+  intros f X cb cb' busy acc ch HX Rb Oc.
+  destruct ch; cbn [body_step]; try (rewrite (to_entry_same f X cb cb' busy _ HX Rb Oc); reflexivity).
+  rewrite okn_body in Oc. pose proof (FindGrouping_same X cb cb' gname HX Rb Oc) as Fs.
+  destruct (FindGrouping SC cb gname) as [[[gid gb] gc]|], (FindGrouping SC' cb' gname) as [[[gid' gb'] gc']|];
+    cbn [same_found] in Fs; try contradiction; [|reflexivity].
+  destruct Fs as (<- & <- & Y & HY & RY & OY). destruct (existsb (Nat.eqb gid) busy); [reflexivity|].
+  rewrite (to_entry_same f Y gc gc' (gid :: busy) (DGrouping gid [] gb) HY RY); [reflexivity|].
+  rewrite okn_body. exact OY.
+Qed.
+
+Lemma body_fold_same : forall f X cb cb' busy l acc, In X parts -> Rctx X cb cb' -> okb (P X) l = true ->
+  fold_left (body_step SC f cb busy) l acc = fold_left (body_step SC' f cb' busy) l acc.
+Proof.
+  intros f X cb cb' busy l. induction l as [|ch l IH]; intros acc HX R Ok; [reflexivity|].
+  cbn [okb forallb] in Ok. apply andb_true_iff in Ok. destruct Ok as [Oc Ol]. cbn [fold_left].
+  rewrite (body_step_same f X cb cb' busy acc ch HX R Oc). apply IH; assumption.
+Qed.
+
+
+
+(* the unsplit side: one body, processed part after part *)
+Lemma module_dir_unsplit :
+  fst (module_dir SC' ic (S (length SC')) [] m') = fold_left (merge_part SC) subs (own_dir SC m).
+Proof.
+  rewrite module_dir_S. assert (m_includes m' = []) as -> by reflexivity. cbn [fold_left fst].
+  destruct fuel_S as [f Ef].
+  rewrite (own_dir_body SC' f m') by (rewrite fuel_same; exact Ef).
+  unfold body_dir. cbn [g_mod g_scopes].
+  set (cb' := {| g_mod := m'; g_scopes := [m_body m'] |}).
+  assert (Part : forall X acc, In X parts ->
+            fold_left (body_step SC' f cb' []) (m_body X) acc =
+            fold_left (body_step SC f {| g_mod := X; g_scopes := [m_body X] |} []) (m_body X) acc).
+  { intros X acc HX. symmetry. apply (body_fold_same f X); auto.
+    - split; [reflexivity|]. split; [reflexivity|]. exists []. auto.
+    - apply part_body_ok. exact HX. }
+  assert (Own : forall X, own_dir SC X =
+            fold_left (body_step SC f {| g_mod := X; g_scopes := [m_body X] |} []) (m_body X) ([], false)).
+  { intros X. rewrite (own_dir_body SC f X Ef). reflexivity. }
+  assert (Body : m_body m' = m_body m ++ flat_map m_body subs) by reflexivity.
+  rewrite Body, fold_left_app, (Part m) by (left; reflexivity). rewrite <- Own.
+  assert (Sub : forall l, (forall s, In s l -> In s subs) -> forall acc,
+            fold_left (body_step SC' f cb' []) (flat_map m_body l) acc = fold_left (merge_part SC) l acc).
+  { induction l as [|s l IH]; intros Hl acc; [reflexivity|].
+    cbn [flat_map fold_left]. rewrite fold_left_app, (Part s) by (right; apply Hl; left; reflexivity).
+    rewrite (body_fold_merge SC f {| g_mod := s; g_scopes := [m_body s] |} [] (m_body s) acc), <- Own.
+    fold (merge_part SC acc s). apply IH.
+    intros x Hx. apply Hl. right. exact Hx. }
+  apply Sub. auto.
+Qed.
+
+(* the split side, as a hypothesis: the includes of m, whatever their nesting, amount to merging the
+   own directories of [subs] one after the other *)
+Hypothesis HS : fst (module_dir SC ic (S (length SC)) [] m) = fold_left (merge_part SC) subs (own_dir SC m).
+
+Theorem gen_module_entry :
+  fst (module_entry SC' ic m') = fst (module_entry SC ic m) /\
+  snd (module_entry SC' ic m') = snd (module_entry SC ic m) || existsb devs_err subs.
+Proof.
+  unfold module_entry.
+  pose proof HS as A. pose proof module_dir_unsplit as B.
+  destruct (module_dir SC ic (S (length SC)) [] m) as [[d e] mg].
+  destruct (module_dir SC' ic (S (length SC')) [] m') as [[d' e'] mg'].
+  cbn [fst] in A, B. rewrite <- A in B. inversion B; subst. cbn [fst snd]. split; [reflexivity|].
+  assert (m_deviations m' = m_deviations m ++ flat_map m_deviations subs) as -> by reflexivity.
+  rewrite existsb_app. fold (devs_err m). rewrite <- orb_assoc. f_equal. f_equal.
+  clear. induction subs as [|s l IH]; [reflexivity|]. cbn [flat_map existsb]. rewrite existsb_app, IH. reflexivity.
+Qed.
+
+Theorem gen_shape :
+  find_module SC' (m_name m) = Some m' /\ m_includes m' = [] /\ map m_name SC' = map m_name SC.
+Proof.
+  split; [|split].
+  - unfold SC'. rewrite find_module_map by apply rf_name.
+    rewrite (find_module_in SC m (fb_names _ _ _ HB) (fb_m _ _ _ HB)). cbn [option_map]. rewrite rf_m. reflexivity.
+  - reflexivity.
+  - unfold SC'. rewrite map_map. apply map_ext. apply rf_name.
+Qed.
+
+Theorem gen_uses_lookup : forall X inner u,
+  In X parts -> Forall (fun sc => okb (P X) sc = true) inner -> P X u = true ->
+  match FindGrouping SC {| g_mod := X; g_scopes := inner ++ [m_body X] |} u,
+        FindGrouping SC' {| g_mod := m'; g_scopes := inner ++ [m_body m'] |} u with
+  | None, None => True
+  | Some (gid, gb, _), Some (gid', gb', _) => gid = gid' /\ gb = gb'
+  | _, _ => False
+  end.
+Proof.
+  intros X inner u HX Ok Hu.
+  pose proof (FindGrouping_same X {| g_mod := X; g_scopes := inner ++ [m_body X] |}
+                {| g_mod := m'; g_scopes := inner ++ [m_body m'] |} u HX) as F.
+  unfold same_found in F.
+  destruct (FindGrouping SC _ u) as [[[gid gb] gc]|], (FindGrouping SC' _ u) as [[[gid' gb'] gc']|];
+    try (apply F; [split; [reflexivity|split; [reflexivity|exists inner; auto]]|exact Hu]).
+  destruct F as (A & B & _); auto. split; [reflexivity|]. split; [reflexivity|]. exists inner. auto.
+Qed.
+
+Theorem gen_module_augs :
+  map (fun a => (a_path a, a_dir a, a_err a)) (module_augs SC' m') =
+  flat_map (fun X => map (fun a => (a_path a, a_dir a, a_err a)) (module_augs SC X)) parts.
+Proof.
+  assert (One : forall X a, In X parts -> In a (m_augments X) ->
+            body_entry SC' m' [m_body m'] (snd a) = body_entry SC X [m_body X] (snd a)).
+  { intros X a HX Ha. unfold body_entry. rewrite fuel_same. symmetry.
+    apply (to_entry_same _ X); auto.
+    - split; [reflexivity|]. split; [reflexivity|]. exists []. auto.
+    - rewrite okn_body. pose proof HOK as O. rewrite Forall_forall in O. destruct (O X HX) as [_ O2].
+      rewrite forallb_forall in O2. apply O2. exact Ha. }
+  assert (Aug : m_augments m' = flat_map m_augments parts) by (unfold parts; cbn [flat_map]; reflexivity).
+  unfold module_augs at 1. rewrite Aug. rewrite map_map.
+  assert (G : forall l, (forall X, In X l -> In X parts) ->
+            map (fun a => let '(e, err) := body_entry SC' m' [m_body m'] (snd a) in
+                          (fst a, match e_dir e with Some d => d | None => [] end, err))
+                (flat_map m_augments l) =
+            flat_map (fun X => map (fun a => (a_path a, a_dir a, a_err a)) (module_augs SC X)) l).
+  { induction l as [|X l IH]; intros Hl; [reflexivity|]. cbn [flat_map]. rewrite map_app, IH.
+    - f_equal. unfold module_augs. rewrite map_map. apply map_ext_in. intros a Ha.
+      rewrite (One X a (Hl X (or_introl eq_refl)) Ha). destruct (body_entry SC X [m_body X] (snd a)). reflexivity.
+    - intros Y HY. apply Hl. right. exact HY. }
+  rewrite <- G by auto. apply map_ext. intros a. destruct (body_entry SC' m' [m_body m'] (snd a)). reflexivity.
+Qed.
+
+End Generic.
+
+(* ------------------------------------------------------------------ direct includes *)
+
+Section Flat.
 Variable SC : schema.
 Variable ic : bool.
 Variable m : module.
 Variable subs : list module.
 Hypothesis FF : flat_family SC m subs.
 
-Let m' := absorb m subs.
-Let SC' := map (replace_family m' subs) SC.
+Local Notation parts := (m :: subs).
+Local Notation m' := (absorb m subs).
+Local Notation SC' := (map (replace_family (absorb m subs) subs) SC).
+Let P := uses_ok m subs.
+Let Rctx := Rctx m subs P.
+Let same_found := same_found m subs P.
+
+Lemma flat_base : family_base SC m subs.
+Proof.
+  constructor; [apply (ff_names _ _ _ FF)|apply (ff_m _ _ _ FF)|apply (ff_nodup _ _ _ FF)|].
+  pose proof (ff_subs _ _ _ FF) as S. rewrite Forall_forall in *. intros s Hs. destruct (S s Hs) as (A & _ & _ & B). auto.
+Qed.
+
+Lemma flat_ok : Forall (fun X => okb (P X) (m_body X) = true /\
+                                 forallb (fun a => okb (P X) (snd a)) (m_augments X) = true) (m :: subs).
+Proof.
+  pose proof (ff_ok _ _ _ FF) as O. rewrite Forall_forall in *. intros X HX. specialize (O X HX).
+  unfold part_ok in O. apply andb_true_iff in O. exact O.
+Qed.
+
+Let len_SC := len_SC SC m subs flat_base.
+Let len_SC' := len_SC' SC m subs.
+Let part_body_ok := part_body_ok m subs P flat_ok.
+Let body_m' := body_m' m subs.
+Let part_eq := part_eq SC m subs flat_base.
+
+Lemma sub_found : forall s, In s subs -> find_module SC (m_name s) = Some s /\ m_includes s = [].
+Proof.
+  intros s H. pose proof (ff_subs _ _ _ FF) as S. rewrite Forall_forall in S. destruct (S s H) as (A & _ & C & _).
+  split; [apply find_module_in; [apply (ff_names _ _ _ FF)|exact A]|exact C].
+Qed.
+
+(* the include walk of the split module finds what the concatenation offers *)
+Lemma walk_spec : forall f0 u rest seen, no_colon u = true ->
+  (forall s, In s rest -> In s subs) -> NoDup (map m_name rest) ->
+  (forall s, In s rest -> ~ In (m_name s) seen) ->
+  fst (incl_walk (S f0) SC u (map m_name rest) seen) =
+  match find_part u rest with
+  | Some (gid, b, s) => Some (gid, b, {| g_mod := s; g_scopes := [m_body s] |})
+  | None => None
+  end.
+Proof.
+  intros f0 u. induction rest as [|s rest IH]; intros seen Hu Hs Nd Hseen; [reflexivity|].
+  cbn [map incl_walk find_part].
+  assert (E : existsb (str_eqb (m_name s)) seen = false).
+  { destruct (existsb (str_eqb (m_name s)) seen) eqn:E; [|reflexivity].
+    exfalso. apply (Hseen s (or_introl eq_refl)). apply mem_in. exact E. }
+  rewrite E. destruct (sub_found s (Hs s (or_introl eq_refl))) as [Fm Inc]. rewrite Fm.
+  rewrite fgm_local by exact Hu. rewrite Inc.
+  destruct (find_in u (groupings_of (m_body s))) as [[gid b]|]; [reflexivity|].
+  cbn [incl_walk]. cbn [map] in Nd. inversion Nd as [|? ? N1 N2]; subst.
+  apply IH; auto.
+  - intros x Hx. apply Hs. right. exact Hx.
+  - intros x Hx [C|C].
+    + apply N1. rewrite C. apply in_map. exact Hx.
+    + apply (Hseen x (or_intror Hx)). exact C.
+Qed.
+
+(* module level: a local name resolves to the same grouping in the split and in the unsplit module *)
+Lemma fgm_same : forall X u, In X parts -> no_colon u = true ->
+  (str_eqb (m_name X) (m_name m) || negb (mem u (foreign m subs X))) = true ->
+  same_found (fst (find_grouping_mod (S (length SC)) SC X false u []))
+             (fst (find_grouping_mod (S (length SC')) SC' m' false u [])).
+Proof.
+  intros X u HX Hu H4. destruct len_SC as [f0 L].
+  rewrite len_SC', L.
+  rewrite !fgm_local by exact Hu. rewrite body_m', find_in_flat.
+  assert (Im' : m_includes m' = []) by reflexivity. rewrite Im'. cbn [incl_walk].
+  assert (Good : forall gid b s, In s parts -> find_in u (groupings_of (m_body s)) = Some (gid, b) ->
+            exists Y, In Y parts /\ Rctx Y {| g_mod := s; g_scopes := [m_body s] |}
+                                          {| g_mod := m'; g_scopes := [m_body m'] |} /\ okb (P Y) b = true).
+  { intros gid b s Hs F. exists s. split; [exact Hs|]. split.
+    - split; [reflexivity|]. split; [reflexivity|]. exists []. auto.
+    - eapply okb_grouping; [apply part_body_ok; exact Hs|exact F]. }
+  destruct (str_eqb (m_name X) (m_name m)) eqn:EX.
+  - (* the module itself: own groupings, then the includes in order *)
+    apply str_eqb_eq in EX. assert (X = m) as -> by (apply part_eq; auto; left; reflexivity).
+    cbn [find_part]. rewrite (ff_incl _ _ _ FF).
+    destruct (find_in u (groupings_of (m_body m))) as [[gid b]|] eqn:F.
+    + cbn [fst same_found]. repeat split. eapply Good; [left; reflexivity|exact F].
+    + rewrite walk_spec; auto.
+      * destruct (find_part u subs) as [[[gid b] s]|] eqn:Fp; cbn [fst same_found]; [|exact I].
+        repeat split. assert (In s subs /\ find_in u (groupings_of (m_body s)) = Some (gid, b)) as [Hs Fs].
+        { clear -Fp. induction subs as [|y r IH]; [discriminate|]. cbn [find_part] in Fp.
+          destruct (find_in u (groupings_of (m_body y))) as [[g0 b0]|] eqn:E.
+          - inversion Fp; subst. split; [left; reflexivity|exact E].
+          - destruct (IH Fp). split; [right|]; assumption. }
+        eapply Good; [right; exact Hs|exact Fs].
+      * pose proof (ff_nodup _ _ _ FF) as N. cbn [map] in N. inversion N. assumption.
+  - (* a submodule: only what it declares itself *)
+    cbn [orb] in H4. apply negb_true_iff in H4.
+    destruct HX as [<-|HX]; [rewrite str_eqb_refl in EX; discriminate|].
+    destruct (sub_found X HX) as [_ Inc]. rewrite Inc. cbn [incl_walk].
+    rewrite (find_part_only u X parts).
+    + destruct (find_in u (groupings_of (m_body X))) as [[gid b]|] eqn:F; cbn [fst same_found]; [|exact I].
+      repeat split. eapply Good; [right; exact HX|exact F].
+    + intros Y HY. destruct (str_eqb (m_name Y) (m_name X)) eqn:EY.
+      * left. apply str_eqb_eq in EY. apply part_eq; auto. right. exact HX.
+      * right. apply find_in_none. fold (top_names Y).
+        destruct (mem u (top_names Y)) eqn:M; [|reflexivity]. exfalso.
+        assert (mem u (foreign m subs X) = true); [|congruence].
+        apply mem_in. unfold foreign. apply in_flat_map. exists Y. split; [exact HY|].
+        rewrite EY. apply mem_in. exact M.
+    + right. exact HX.
+Qed.
+
+
+Lemma flat_LK : forall X u, In X parts -> P X u = true ->
+  same_found (fst (find_grouping_mod (S (length SC)) SC X false (trim_prefix (m_prefix m ++ [cCOLON]) u) []))
+             (fst (find_grouping_mod (S (length SC')) SC' m' false (trim_prefix (m_prefix m ++ [cCOLON]) u) [])).
+Proof.
+  intros X u HX HP. unfold P, uses_ok in HP. apply andb_true_iff in HP. destruct HP as [Hu H4].
+  apply fgm_same; assumption.
+Qed.
 
 (* the split side: the includes are merged one after the other *)
 Lemma split_fold : forall f0 rest acc merged,
@@ -963,7 +1116,7 @@ Lemma split_fold : forall f0 rest acc merged,
 Proof.
   intros f0. induction rest as [|s rest IH]; intros acc merged Hs Nd Hm; [reflexivity|].
   cbn [map fold_left]. 
-  destruct (sub_found SC m subs FF s (Hs s (or_introl eq_refl))) as [Fm Inc].
+  destruct (sub_found s (Hs s (or_introl eq_refl))) as [Fm Inc].
   pose proof (ff_subs _ _ _ FF) as Sb. rewrite Forall_forall in Sb.
   destruct (Sb s (Hs s (or_introl eq_refl))) as (_ & Bel & _ & _).
   destruct (Hm s (or_introl eq_refl)) as [M1 M2].
@@ -993,71 +1146,10 @@ Qed.
 Lemma module_dir_split :
   fst (module_dir SC ic (S (length SC)) [] m) = fold_left (merge_part SC) subs (own_dir SC m).
 Proof.
-  destruct (len_SC SC m subs FF) as [f0 L]. rewrite L, module_dir_S, (ff_incl _ _ _ FF).
+  destruct len_SC as [f0 L]. rewrite L, module_dir_S, (ff_incl _ _ _ FF).
   apply split_fold; auto.
   pose proof (ff_nodup _ _ _ FF) as N. cbn [map] in N. inversion N. assumption.
 Qed.
-
-(* the unsplit side: one body, processed part after part *)
-Lemma module_dir_unsplit :
-  fst (module_dir SC' ic (S (length SC')) [] m') = fold_left (merge_part SC) subs (own_dir SC m).
-Proof.
-  rewrite module_dir_S. assert (m_includes m' = []) as -> by reflexivity. cbn [fold_left fst].
-  destruct (fuel_S SC) as [f Ef].
-  rewrite (own_dir_body SC' f m') by (unfold SC', m'; rewrite (fuel_same SC m subs FF); exact Ef).
-  unfold body_dir. cbn [g_mod g_scopes].
-  set (cb' := {| g_mod := m'; g_scopes := [m_body m'] |}).
-  assert (Part : forall X acc, In X (m :: subs) ->
-            fold_left (body_step SC' f cb' []) (m_body X) acc =
-            fold_left (body_step SC f {| g_mod := X; g_scopes := [m_body X] |} []) (m_body X) acc).
-  { intros X acc HX. symmetry. apply (body_fold_same SC m subs FF f X); auto.
-    - split; [reflexivity|]. split; [reflexivity|]. exists []. auto.
-    - apply (part_body_ok SC m subs FF). exact HX. }
-  assert (Own : forall X, own_dir SC X =
-            fold_left (body_step SC f {| g_mod := X; g_scopes := [m_body X] |} []) (m_body X) ([], false)).
-  { intros X. rewrite (own_dir_body SC f X Ef). reflexivity. }
-  assert (Body : m_body m' = m_body m ++ flat_map m_body subs) by reflexivity.
-  rewrite Body, fold_left_app, (Part m) by (left; reflexivity). rewrite <- Own.
-  assert (Sub : forall l, (forall s, In s l -> In s subs) -> forall acc,
-            fold_left (body_step SC' f cb' []) (flat_map m_body l) acc = fold_left (merge_part SC) l acc).
-  { induction l as [|s l IH]; intros Hl acc; [reflexivity|].
-    cbn [flat_map fold_left]. rewrite fold_left_app, (Part s) by (right; apply Hl; left; reflexivity).
-    rewrite (body_fold_merge SC f {| g_mod := s; g_scopes := [m_body s] |} [] (m_body s) acc), <- Own.
-    fold (merge_part SC acc s). apply IH.
-    intros x Hx. apply Hl. right. exact Hx. }
-  apply Sub. auto.
-Qed.
-
-Definition devs_err (x : module) : bool := existsb (fun dv => existsb deviate_err (snd dv)) (m_deviations x).
-
-(* C13 (c) for direct includes: the module's tree is the same whether its statements are
-   spread over submodules or written in the module itself; the error flag is the same, except
-   that erroneous deviate statements of a submodule are reported on the submodule's own entry
-   in the split schema and on the module's in the unsplit one *)
-Theorem module_entry_unsplit_flat :
-  fst (module_entry SC' ic m') = fst (module_entry SC ic m) /\
-  snd (module_entry SC' ic m') = snd (module_entry SC ic m) || existsb devs_err subs.
-Proof.
-  unfold module_entry.
-  pose proof module_dir_split as A. pose proof module_dir_unsplit as B.
-  destruct (module_dir SC ic (S (length SC)) [] m) as [[d e] mg].
-  destruct (module_dir SC' ic (S (length SC')) [] m') as [[d' e'] mg'].
-  cbn [fst] in A, B. rewrite <- A in B. inversion B; subst. cbn [fst snd]. split; [reflexivity|].
-  assert (m_deviations m' = m_deviations m ++ flat_map m_deviations subs) as -> by reflexivity.
-  rewrite existsb_app. fold (devs_err m). rewrite <- orb_assoc. f_equal. f_equal.
-  clear. induction subs as [|s l IH]; [reflexivity|]. cbn [flat_map existsb]. rewrite existsb_app, IH. reflexivity.
-Qed.
-
-End Assemble.
-
-(* ------------------------------------------------------------------ in terms of unsplit *)
-
-Section Final.
-Variable SC : schema.
-Variable ic : bool.
-Variable m : module.
-Variable subs : list module.
-Hypothesis FF : flat_family SC m subs.
 
 Lemma subs_of_nil : forall f seen, subs_of f SC seen [] = ([], seen).
 Proof. destruct f; reflexivity. Qed.
@@ -1080,7 +1172,7 @@ Proof.
     assert (mem (m_name s) seen = false) as ->.
     { destruct (mem (m_name s) seen) eqn:E; [|reflexivity]. apply mem_in in E.
       exfalso. apply (Hseen s); [left; reflexivity|exact E]. }
-    destruct (sub_found SC m subs FF s (Hs s (or_introl eq_refl))) as [-> ->].
+    destruct (sub_found s (Hs s (or_introl eq_refl))) as [-> ->].
     rewrite subs_of_nil. cbn [map] in Nd. inversion Nd as [|? ? N1 N2]; subst.
     rewrite IH; auto.
     - rewrite <- app_assoc. reflexivity.
@@ -1092,38 +1184,23 @@ Proof.
     apply N1. rewrite C. apply in_map. exact Hs.
 Qed.
 
+
+(* C13 (c) for direct includes *)
 Theorem module_entry_unsplit :
   fst (module_entry (unsplit_schema SC m) ic (unsplit SC m)) = fst (module_entry SC ic m) /\
   snd (module_entry (unsplit_schema SC m) ic (unsplit SC m)) =
     snd (module_entry SC ic m) || existsb devs_err (reachable_subs SC m).
 Proof.
-  unfold unsplit_schema, unsplit. rewrite reachable_flat. apply module_entry_unsplit_flat. exact FF.
+  unfold unsplit_schema, unsplit. rewrite reachable_flat.
+  exact (gen_module_entry SC ic m subs P flat_base flat_ok flat_LK module_dir_split).
 Qed.
 
-(* the unsplit module is found in the unsplit schema, has no includes left, and the schema has
-   the same modules by name *)
 Theorem unsplit_schema_shape :
   find_module (unsplit_schema SC m) (m_name m) = Some (unsplit SC m) /\
   m_includes (unsplit SC m) = [] /\
   map m_name (unsplit_schema SC m) = map m_name SC.
-Proof.
-  unfold unsplit_schema. split; [|split].
-  - rewrite find_module_map.
-    + rewrite (find_module_in SC m (ff_names _ _ _ FF) (ff_m _ _ _ FF)). cbn [option_map]. f_equal.
-      unfold replace_family. assert (m_name (unsplit SC m) = m_name m) as -> by reflexivity.
-      rewrite str_eqb_refl. reflexivity.
-    + intros x. unfold replace_family. destruct (str_eqb (m_name x) (m_name (unsplit SC m))) eqn:E.
-      * apply str_eqb_eq in E. symmetry. exact E.
-      * destruct (mem _ _); reflexivity.
-  - reflexivity.
-  - rewrite map_map. apply map_ext. intros x. unfold replace_family.
-    destruct (str_eqb (m_name x) (m_name (unsplit SC m))) eqn:E.
-    + apply str_eqb_eq in E. symmetry. exact E.
-    + destruct (mem _ _); reflexivity.
-Qed.
+Proof. unfold unsplit_schema, unsplit. rewrite reachable_flat. exact (gen_shape SC m subs flat_base). Qed.
 
-(* grouping lookup: a uses statement of part X, in any nesting of statements [inner] of X,
-   resolves to the same grouping statement before and after unsplitting *)
 Theorem uses_lookup_unsplit : forall X inner u,
   In X (m :: subs) -> Forall (fun sc => okb (uses_ok m subs X) sc = true) inner ->
   uses_ok m subs X u = true ->
@@ -1134,44 +1211,11 @@ Theorem uses_lookup_unsplit : forall X inner u,
   | Some (gid, gb, _), Some (gid', gb', _) => gid = gid' /\ gb = gb'
   | _, _ => False
   end.
-Proof.
-  intros X inner u HX Ok Hu. unfold unsplit_schema, unsplit. rewrite reachable_flat.
-  pose proof (FindGrouping_same SC m subs FF X
-                {| g_mod := X; g_scopes := inner ++ [m_body X] |}
-                {| g_mod := absorb m subs; g_scopes := inner ++ [m_body (absorb m subs)] |} u HX) as F.
-  unfold same_found in F.
-  destruct (FindGrouping SC _ u) as [[[gid gb] gc]|], (FindGrouping (map _ SC) _ u) as [[[gid' gb'] gc']|];
-    try (apply F; [split; [reflexivity|split; [reflexivity|exists inner; auto]]|exact Hu]).
-  destruct F as (A & B & _); auto. split; [reflexivity|]. split; [reflexivity|]. exists inner. auto.
-Qed.
+Proof. unfold unsplit_schema, unsplit. rewrite reachable_flat. exact (gen_uses_lookup SC m subs P flat_base flat_LK). Qed.
 
-(* augments: the unsplit module carries the augments of all parts, each with the same body
-   entries and the same error flag *)
 Theorem module_augs_unsplit :
   map (fun a => (a_path a, a_dir a, a_err a)) (module_augs (unsplit_schema SC m) (unsplit SC m)) =
   flat_map (fun X => map (fun a => (a_path a, a_dir a, a_err a)) (module_augs SC X)) (m :: subs).
-Proof.
-  unfold unsplit_schema, unsplit. rewrite reachable_flat.
-  set (m' := absorb m subs). set (SC' := map (replace_family m' subs) SC).
-  assert (One : forall X a, In X (m :: subs) -> In a (m_augments X) ->
-            body_entry SC' m' [m_body m'] (snd a) = body_entry SC X [m_body X] (snd a)).
-  { intros X a HX Ha. unfold body_entry. unfold SC', m'. rewrite (fuel_same SC m subs FF). symmetry.
-    apply (to_entry_same SC m subs FF _ X); auto.
-    - split; [reflexivity|]. split; [reflexivity|]. exists []. auto.
-    - rewrite okn_body. pose proof (ff_ok _ _ _ FF) as O. rewrite Forall_forall in O. specialize (O X HX).
-      unfold part_ok in O. apply andb_true_iff in O. destruct O as [_ O]. rewrite forallb_forall in O. apply O. exact Ha. }
-  assert (Aug : m_augments m' = flat_map m_augments (m :: subs)) by (cbn [flat_map]; reflexivity).
-  unfold module_augs at 1. rewrite Aug. rewrite map_map.
-  assert (G : forall l, (forall X, In X l -> In X (m :: subs)) ->
-            map (fun a => let '(e, err) := body_entry SC' m' [m_body m'] (snd a) in
-                          (fst a, match e_dir e with Some d => d | None => [] end, err))
-                (flat_map m_augments l) =
-            flat_map (fun X => map (fun a => (a_path a, a_dir a, a_err a)) (module_augs SC X)) l).
-  { induction l as [|X l IH]; intros Hl; [reflexivity|]. cbn [flat_map]. rewrite map_app, IH.
-    - f_equal. unfold module_augs. rewrite map_map. apply map_ext_in. intros a Ha.
-      rewrite (One X a (Hl X (or_introl eq_refl)) Ha). destruct (body_entry SC X [m_body X] (snd a)). reflexivity.
-    - intros Y HY. apply Hl. right. exact HY. }
-  rewrite <- G by auto. apply map_ext. intros a. destruct (body_entry SC' m' [m_body m'] (snd a)). reflexivity.
-Qed.
+Proof. unfold unsplit_schema, unsplit. rewrite reachable_flat. exact (gen_module_augs SC m subs P flat_base flat_ok flat_LK). Qed.
 
-End Final.
+End Flat.
